@@ -38,7 +38,8 @@ CONSTANTS H, W,          \* buffer / image grid
           Classes,       \* mode classes explored by BufSpec
           ImgForms,      \* forms allowed for the image-side indexers (subset of {"slice", "rev"})
           SrcTiles,      \* the source images offered to Fill / Update
-          PriorTiles,    \* contents the buffer may start with (a cleared buffer, or any tile read from disk)
+          PriorTiles,    \* contents of a buffer obtained by reading a tile (update_image: basis = read_image(...))
+          ExploreFrom,   \* calls are explored from these contents only (Tiles: from everything reachable)
           FancySel,      \* the pointwise (integer-array) indexers offered to Fill
           Formats,       \* storage formats explored by FileSpec
           FileTiles      \* the tiles offered to Write
@@ -57,9 +58,9 @@ ASSUME Classes \subseteq AllClasses /\ ImgForms \subseteq {"slice", "rev"}
 ASSUME SrcTiles \subseteq Tiles /\ PriorTiles \subseteq Tiles /\ FileTiles \subseteq Tiles
 
 -----------------------------------------------------------------------------
-(* (TLCEval only forces TLC to tabulate a function once instead of           *)
-(* re-evaluating its body at every application; it is the identity.)         *)
-(* Indexers.  One axis indexer is one of the two slice forms of the code     *)
+(* Indexers.  (TLCEval is the identity; it makes TLC tabulate a function     *)
+(* once instead of re-evaluating its body at every application.)             *)
+(* One axis indexer is one of the two slice forms of the code     *)
 (* base; it denotes a sequence of indices along an axis of length n.         *)
 (*   Sl(a, b)   slice(a, b)                         a, a+1, ..., b-1         *)
 (*   Rv(hi, n)  slice(hi, hi-n, -1), with the stop written None when it      *)
@@ -84,13 +85,8 @@ RectOf(y, x) == [k |-> "rect", f |-> <<y[1].k, x[1].k, y[2].k, x[2].k>>,
 Rects == {RectOf(y, x) : y \in AxisPairs(H), x \in AxisPairs(W)}
 
 LISTS == <<"list", "list", "list", "list">>
-\* pointwise indexer addressing the buffer points P (in row-major order, as np.indices()[ok] yields them)
-\* from the image points g[p]
-FancyOf(P, g) == LET ps == SetToSortSeq(P, LAMBDA a, b : a < b) IN
-    [k |-> "fancy", f |-> LISTS,
-     by |-> TLCEval([j \in 1..Len(ps) |-> (ps[j] - 1) \div W]), bx |-> TLCEval([j \in 1..Len(ps) |-> (ps[j] - 1) % W]),
-     iy |-> TLCEval([j \in 1..Len(ps) |-> (g[ps[j]] - 1) \div W]), ix |-> TLCEval([j \in 1..Len(ps) |-> (g[ps[j]] - 1) % W])]
-FancyAll == UNION {{FancyOf(P, g) : g \in [P -> 1..N]} : P \in SUBSET (1..N)}
+\* a pointwise indexer: distinct buffer points in row-major order (as np.indices(...)[ok] yields them), each fed from
+\* any image point.  The harness enumerates / samples them; IsFancy is what TLC accepts.
 IsFancy(A) == /\ A.k = "fancy" /\ A.f = LISTS
               /\ Len(A.by) = Len(A.bx) /\ Len(A.iy) = Len(A.by) /\ Len(A.ix) = Len(A.by)
               /\ \A j \in DOMAIN A.by : A.by[j] \in 0..(H - 1) /\ A.bx[j] \in 0..(W - 1)
@@ -106,7 +102,7 @@ Pairs(A) == TLCEval(IF A.k = "rect"
             ELSE [k \in 1..Len(A.by) |-> <<Flat(A.by[k], A.bx[k]), Flat(A.iy[k], A.ix[k])>>])
 
 RectSeq == SetToSeq(Rects)
-IdxSeq == RectSeq \o SetToSeq(FancySel)          \* fill accepts all of them; update only the slices (see UpdateOp)
+IdxSeq == RectSeq \o SetToSeq(FancySel)          \* fill accepts all of them; update only the slices 1..NRect
 NRect == Len(RectSeq)
 PairsOf == TLCEval([j \in 1..Len(IdxSeq) |-> Pairs(IdxSeq[j])])
 AddrOf(pr) == {pr[k][1] : k \in DOMAIN pr}                                         \* the addressed buffer pixels
@@ -128,14 +124,16 @@ ASSUME \A j \in 1..Len(IdxSeq) : LET A == IdxSeq[j] pr == PairsOf[j] IN
 SrcOK(c, s) == c = "RGB" => \A p \in 1..N : s[p] # Undef        \* an RGB image has no undefined pixel
 SrcSeqOf == TLCEval([c \in AllClasses |-> SetToSeq({s \in SrcTiles : SrcOK(c, s)})])
 
-\* b[by_idx, bx_idx] = i[iy_idx, ix_idx]: the paired elements are stored in turn
-RECURSIVE Store(_, _, _, _)
-Store(b, pr, s, k) == IF k > Len(pr) THEN b ELSE Store([b EXCEPT ![pr[k][1]] = s[pr[k][2]]], pr, s, k + 1)
+\* The paired elements of b[by_idx, bx_idx] and i[iy_idx, ix_idx] are processed in turn; LastOver(pr, p) is the
+\* last pair that touches buffer pixel p (0: none does) - with a store, the one whose value stays
+LastOver(pr, p) == LET ks == {k \in DOMAIN pr : pr[k][1] = p} IN IF ks = {} THEN 0 ELSE Max(ks)
 
 ClearOp(c, b) == AllU                                           \* fill(0) resp. fill(nan)
-FillOp(c, b, pr, s) == Store(AllU, pr, s, 1)                    \* b.fill(0 | nan); then the store (RGB: plus alpha := 255)
 
-\* update: per pixel of the sub-views sub_b = b[by, bx], sub_i = i[iy, ix]
+\* fill:  b.fill(0 | nan) ; b[by_idx, bx_idx] = i[iy_idx, ix_idx]   (RGB: into the colour channels, alpha := 255)
+FillOp(c, b, pr, s) == TLCEval([p \in 1..N |-> LET k == LastOver(pr, p) IN IF k = 0 THEN Undef ELSE s[pr[k][2]]])
+
+\* update: per pixel of the views sub_b = b[by_idx, bx_idx], sub_i = i[iy_idx, ix_idx] (slices: no pixel twice)
 \*   RGB              sub_b[..., :3] = sub_i ; sub_b[..., 3] = 255
 \*   RGBA             np.putmask(sub_b, alpha(sub_i) != 0, sub_i)
 \*   F32 / F64        np.putmask(sub_b, ~isnan(sub_i), sub_i)
@@ -143,10 +141,8 @@ FillOp(c, b, pr, s) == Store(AllU, pr, s, 1)                    \* b.fill(0 | na
 \*   U8 / I16 / I32   np.maximum(sub_b, sub_i, out = sub_b)
 UpdPix(c, old, new) == IF c = "Int" THEN Larger(old, new)
                        ELSE IF c = "RGB" \/ new # Undef THEN new ELSE old
-RECURSIVE Merge(_, _, _, _, _)
-Merge(c, b, pr, s, k) == IF k > Len(pr) THEN b
-                         ELSE Merge(c, [b EXCEPT ![pr[k][1]] = UpdPix(c, b[pr[k][1]], s[pr[k][2]])], pr, s, k + 1)
-UpdateOp(c, b, pr, s) == Merge(c, b, pr, s, 1)
+UpdateOp(c, b, pr, s) == TLCEval([p \in 1..N |-> LET k == LastOver(pr, p) IN
+                                                  IF k = 0 THEN b[p] ELSE UpdPix(c, b[p], s[pr[k][2]])])
 
 -----------------------------------------------------------------------------
 (* Modes, formats, the tile file.                                            *)
@@ -192,10 +188,11 @@ ForEveryCall(c, P(_)) == /\ P(ClearCall)
 Apply(c, b, cl) == CASE cl.op = "clear" -> ClearOp(c, b)
                      [] cl.op = "fill" -> FillOp(c, b, PairsOf[cl.ix], SrcSeqOf[c][cl.src])
                      [] cl.op = "update" -> UpdateOp(c, b, PairsOf[cl.ix], SrcSeqOf[c][cl.src])
-BInit == cls \in Classes /\ buf \in PriorTiles /\ FileFrozen
-BNext == /\ \/ buf' = Apply(cls, buf, ClearCall)
-            \/ \E j \in 1..Len(IdxSeq), k \in 1..Len(SrcSeqOf[cls]) : buf' = Apply(cls, buf, FillCall(j, k))
-            \/ \E j \in 1..NRect, k \in 1..Len(SrcSeqOf[cls]) : buf' = Apply(cls, buf, UpdateCall(j, k))
+BInit == cls \in Classes /\ buf = AllU /\ FileFrozen          \* make_maskable_buffer(...).clear()
+BNext == /\ \/ buf' \in PriorTiles                              \* a buffer read from a tile file takes its place
+            \/ buf \in ExploreFrom /\ buf' = Apply(cls, buf, ClearCall)
+            \/ buf \in ExploreFrom /\ \E j \in 1..Len(IdxSeq), k \in 1..Len(SrcSeqOf[cls]) : buf' = Apply(cls, buf, FillCall(j, k))
+            \/ buf \in ExploreFrom /\ \E j \in 1..NRect, k \in 1..Len(SrcSeqOf[cls]) : buf' = Apply(cls, buf, UpdateCall(j, k))
          /\ UNCHANGED cls /\ UNCHANGED fvars
 BufSpec == BInit /\ [][BNext]_vars
 
@@ -265,7 +262,8 @@ C15Buffer(c, b, cl, b2) ==
     /\ b2 \in Tiles
 
 \* every step the buffer machine can take from the current state satisfies the sentences
-EveryCallObeysC15 == ForEveryCall(cls, LAMBDA cl : C15Buffer(cls, buf, cl, Apply(cls, buf, cl)))
+EveryCallObeysC15 == buf \in ExploreFrom =>
+    ForEveryCall(cls, LAMBDA cl : C15Buffer(cls, buf, cl, Apply(cls, buf, cl)))
 
 FTypeOK == /\ file.mode \in Modes \cup {"none"} /\ file.px \in Tiles
            /\ file.mode # "none" => file.mode \in CanHold[fmt] /\ file.px \in TilesOf(file.mode)
